@@ -711,3 +711,16 @@ UNITS += REST_UNITS
 for _k in ("trusted_base", "assumptions", "not_decided"):
     META[_k] = list(META.get(_k, [])) + list(REST_META.get(_k, []))
 STATIC = list(globals().get("STATIC", [])) + list(REST_STATIC)
+
+
+# ---- when_all slot layout (added by main after seeded change C03-4 was missed) ----
+WA_HPP = ALG + "when_all.hpp"
+UNITS.append(Unit("when_all.storage_offsets", "offsets.c", enforce="derived_offset", loop_contracts=False, lifts={
+    "derived": Lift(WA_HPP, r"static constexpr std::size_t i_storage_offset =(?!\s*0;)", fragment_end=r";", rules=[
+        Sub(r"static constexpr std::size_t i_storage_offset =", "return", 1),
+        Sub(r"\bbase_type::(\w+)", r"base_\1", None),
+        Sub(r"(?<![\w:])(sender_pack_size|i_storage_offset)\b", r"own_\1", None)], generic=False),
+    "base": Lift(WA_HPP, r"static constexpr std::size_t i_storage_offset =(?=\s*0;)", fragment_end=r";", rules=[
+        Sub(r"static constexpr std::size_t i_storage_offset =", "return", 1)], generic=False)},
+    funcs=[WA_HPP + ": when_all operation_state<..., I>::i_storage_offset (both definitions)"], min_obligations=2,
+    doc="F: offset(I) == offset(I-1) + pack_size(I-1), offset(0) == 0: the predecessors' value slots are consecutive and disjoint"))
